@@ -2,6 +2,8 @@ package harness
 
 import (
 	"fmt"
+	"io"
+	"net"
 	"net/http"
 	"net/http/httptest"
 	"sync"
@@ -33,6 +35,113 @@ func famRace(t *testing.T, r *Rec) {
 	raceHttpContext(r)
 	raceCors(r)
 	raceCloseCauses(r)
+	raceListenerShutdown(r)
+}
+
+// raceListenerShutdown (C12): an engine attached to an HTTP server that really listens (types.HttpServer.Listen on a
+// loopback port, a real HTTP client). Closing the HTTP server closes every session, each with one close event and
+// reason "forced close", releases a pending long-poll with a close or noop packet, and leaves the client table empty —
+// and does so promptly: a graceful listener shutdown waits for active requests, and the pending poll is one.
+func raceListenerShutdown(r *Rec) {
+	for _, pendingPoll := range []bool{true, false} {
+		name := "between-polls"
+		if pendingPoll {
+			name = "poll-pending"
+		}
+		replay := []string{"Go: types.NewWebServer + engine.Attach + Listen(127.0.0.1:0); polling handshake over TCP; " + name + "; HttpServer.Close"}
+		r.scenarios++
+		r.Cover("race/listener-shutdown/" + name)
+		l, err := net.Listen("tcp", "127.0.0.1:0")
+		if err != nil {
+			r.Cover("race/listener-shutdown/no-loopback")
+			return
+		}
+		addr := l.Addr().String()
+		l.Close()
+		opts := &config.ServerOptions{}
+		opts.SetPingInterval(10 * time.Minute)
+		opts.SetPingTimeout(10 * time.Minute)
+		hs := types.NewWebServer(nil)
+		srv := engine.Attach(hs, opts)
+		var mu sync.Mutex
+		var reasons []string
+		srv.On("connection", func(a ...any) {
+			so := a[0].(engine.Socket)
+			so.On("close", func(b ...any) {
+				mu.Lock()
+				reasons = append(reasons, fmt.Sprint(b[0]))
+				mu.Unlock()
+			})
+		})
+		hs.Listen(addr, nil)
+		cl := &http.Client{Timeout: 20 * time.Second}
+		get := func(q string) (string, error) {
+			resp, err := cl.Get("http://" + addr + "/engine.io/?transport=polling&EIO=4" + q)
+			if err != nil {
+				return "", err
+			}
+			defer resp.Body.Close()
+			b, err := io.ReadAll(resp.Body)
+			return string(b), err
+		}
+		var body string
+		for k := 0; k < 100; k++ { // the listener goroutine may need a moment
+			if body, err = get(""); err == nil {
+				break
+			}
+			time.Sleep(10 * time.Millisecond)
+		}
+		i := strings.Index(body, `"sid":"`)
+		if err != nil || i < 0 {
+			r.Cover("race/listener-shutdown/no-handshake")
+			hs.Close(nil)
+			return
+		}
+		sid := body[i+7 : i+7+strings.Index(body[i+7:], `"`)]
+		pollDone := make(chan string, 1)
+		if pendingPoll {
+			go func() {
+				b, err := get("&sid=" + sid)
+				if err != nil {
+					b = "error: " + err.Error()
+				}
+				pollDone <- b
+			}()
+			for k := 0; k < 400; k++ { // until the poll is pending on the transport
+				if c, ok := srv.Clients().Load(sid); ok && c.Transport().Writable() {
+					break
+				}
+				time.Sleep(5 * time.Millisecond)
+			}
+		}
+		closed := make(chan struct{})
+		go func() { hs.Close(nil); close(closed) }()
+		select {
+		case <-closed:
+		case <-time.After(8 * time.Second):
+			r.Violate("C12", "C12/http-server-close/does-not-return/"+name, "HttpServer.Close did not return within 8 s", replay)
+		}
+		if pendingPoll {
+			select {
+			case b := <-pollDone:
+				if b != "1" && b != "6" {
+					r.Violate("C12", "C12/http-server-close/pending-poll-not-released/"+name, "the pending poll was answered with "+fmt.Sprintf("%q", b)+", want a close or noop packet", replay)
+				}
+			case <-time.After(3 * time.Second):
+				r.Violate("C12", "C12/http-server-close/pending-poll-not-released/"+name, "the pending poll was not released", replay)
+			}
+		}
+		time.Sleep(50 * time.Millisecond)
+		mu.Lock()
+		got := strings.Join(reasons, ",")
+		mu.Unlock()
+		if got != "forced close" {
+			r.Violate("C12", "C12/http-server-close/close-events/"+name, "close events of the session after HttpServer.Close: ["+got+"], want exactly one, reason forced close", replay)
+		}
+		if n := srv.ClientsCount(); n != 0 {
+			r.Violate("C12", "C12/http-server-close/table-not-empty/"+name, fmt.Sprintf("clients count %d after HttpServer.Close", n), replay)
+		}
+	}
 }
 
 type gateRW struct {
